@@ -20,6 +20,7 @@ GOENV = dict(os.environ, GOFLAGS="-mod=mod", GOPROXY="off", GOSUMDB="off", GOTOO
 DRIVER = os.path.join(BUILD, "goskverif")
 CLI = os.path.join(BUILD, "gosk")
 
+CASE_TIMEOUT = int(os.environ.get("VERIF_CASE_TIMEOUT", "40"))
 ALLOWED_AXIOMS = set()  # none expected; stdlib axioms would be listed here by name
 
 
@@ -211,16 +212,34 @@ def _worker(cases_path, out_path, work):
                              stdout=subprocess.DEVNULL, stderr=subprocess.PIPE)
         last = None
         errtail = []
-        for ln in p.stderr:
-            ln = ln.decode("utf-8", "replace")
-            if ln.startswith("@@BEGIN "):
-                last = int(ln.split()[1])
-                errtail = []
-            else:
-                errtail.append(ln)
-                if len(errtail) > 30:
-                    errtail.pop(0)
+        import select, signal
+        fd = p.stderr.fileno()
+        buf = b""
+        hung = False
+        while True:
+            r, _, _ = select.select([fd], [], [], CASE_TIMEOUT)
+            if not r:
+                hung = True          # no case finished within the deadline: treat as a hang
+                p.kill()
+                break
+            chunk = os.read(fd, 65536)
+            if not chunk:
+                break
+            buf += chunk
+            while b"\n" in buf:
+                ln, buf = buf.split(b"\n", 1)
+                ln = ln.decode("utf-8", "replace") + "\n"
+                if ln.startswith("@@BEGIN "):
+                    last = int(ln.split()[1])
+                    errtail = []
+                else:
+                    errtail.append(ln)
+                    if len(errtail) > 30:
+                        errtail.pop(0)
         rc = p.wait()
+        if hung:
+            rc = -99
+            errtail.append("TIMEOUT: no progress for %d s\n" % CASE_TIMEOUT)
         if rc == 0:
             break
         if last is None:
